@@ -188,7 +188,7 @@ func (h *c23) drive(tx *wtxn) {
 	req := &pb.RaftCmdRequest{Header: h.header(tx.ri), Requests: []*pb.Request{r}}
 	tag := tagOf(req)
 	n := w.nodes[h.wbelief[tx.writer][tx.ri]]
-	w.res.Trace.Add("wr%d %s -> s%d", tx.writer, tag, n.id)
+	w.tr("wr%d %s -> s%d", tx.writer, tag, n.id)
 	if n.down {
 		h.retry(tx, n.idx, nil)
 		return
@@ -199,11 +199,11 @@ func (h *c23) drive(tx *wtxn) {
 		callStep := cl.callStep
 		switch {
 		case err != nil:
-			w.res.Trace.Add("wr%d %s err", tx.writer, tag)
+			w.tr("wr%d %s err", tx.writer, tag)
 			h.retry(tx, n.idx, nil)
 			return
 		case resp.GetRegionError() != nil:
-			w.res.Trace.Add("wr%d %s region-error", tx.writer, tag)
+			w.tr("wr%d %s region-error", tx.writer, tag)
 			h.retry(tx, n.idx, resp.GetRegionError())
 			return
 		}
@@ -213,7 +213,7 @@ func (h *c23) drive(tx *wtxn) {
 		if !known || from != tag {
 			// C22's defect (response of another command): not charged to C23; outcome unknown.
 			w.res.Probes["c22_wrong_response_met"]++
-			w.res.Trace.Add("wr%d %s wrong-response", tx.writer, tag)
+			w.tr("wr%d %s wrong-response", tx.writer, tag)
 			h.retry(tx, n.idx, nil)
 			return
 		}
@@ -231,7 +231,7 @@ func (h *c23) drive(tx *wtxn) {
 		default:
 			kerr = len(resp.GetResponses()) == 0 || resp.GetResponses()[0].GetBatchRollback().GetError() != nil
 		}
-		w.res.Trace.Add("wr%d %s ok keyerr=%v", tx.writer, tag, kerr)
+		w.tr("wr%d %s ok keyerr=%v", tx.writer, tag, kerr)
 		tx.attempts = 0
 		switch {
 		case tx.phase == phPrewrite && !kerr:
@@ -299,7 +299,7 @@ func (h *c23) read(ri, key, target int, final bool) {
 	rec := &readRec{key: key, store: target, readTs: h.next(), floorTs: h.maxAcked[key], floorVal: h.maxVal[key]}
 	req := &pb.RaftCmdRequest{Header: h.header(rgi), Requests: []*pb.Request{{CmdType: pb.CmdType_CMD_GET,
 		Cmd: &pb.Request_Get{Get: &pb.GetRequest{Key: h.keyName(key), Version: rec.readTs}}}}}
-	w.res.Trace.Add("rd%d k%d@%d -> s%d", ri, key, rec.readTs, n.id)
+	w.tr("rd%d k%d@%d -> s%d", ri, key, rec.readTs, n.id)
 	var resp *pb.RaftCmdResponse
 	var err error
 	w.dispatch(cl, func() { resp, err = n.st.ReadCommand(req) }, func() {
@@ -307,12 +307,12 @@ func (h *c23) read(ri, key, target int, final bool) {
 		region := w.regions[rgi].ID
 		switch {
 		case err != nil:
-			w.res.Trace.Add("rd%d k%d err", ri, key)
+			w.tr("rd%d k%d err", ri, key)
 			w.res.Probes["read_error"]++
 			h.rbelief[ri][rgi] = (target + 1) % len(w.nodes)
 			return
 		case resp.GetRegionError() != nil:
-			w.res.Trace.Add("rd%d k%d region-error", ri, key)
+			w.tr("rd%d k%d region-error", ri, key)
 			w.res.Probes["read_rejected"]++
 			if ne := resp.GetRegionError().GetNotLeader(); ne != nil && ne.GetLeader() != nil {
 				h.rbelief[ri][rgi] = int(ne.GetLeader().GetStoreId()) - 1
@@ -327,7 +327,7 @@ func (h *c23) read(ri, key, target int, final bool) {
 		}
 		g := resp.GetResponses()[0].GetGet()
 		if g.GetError() != nil {
-			w.res.Trace.Add("rd%d k%d keyerror", ri, key)
+			w.tr("rd%d k%d keyerror", ri, key)
 			w.res.Probes["read_locked"]++
 			return
 		}
@@ -335,7 +335,7 @@ func (h *c23) read(ri, key, target int, final bool) {
 			rec.val = string(g.GetValue())
 		}
 		h.values++
-		w.res.Trace.Add("rd%d k%d = %q", ri, key, rec.val)
+		w.tr("rd%d k%d = %q", ri, key, rec.val)
 		h.reads = append(h.reads, rec)
 		if n.lostAt[region] >= rec.call {
 			w.res.Probes["read_served_by_store_that_lost_leadership_meanwhile"]++
@@ -493,7 +493,7 @@ func execC23(t *testing.T, c *sim.Case) *sim.Result {
 				h.read(imod(op.A, h.nr), imod(op.B, h.nkeys), tgt, false)
 			default:
 				if w.faultOp(op) {
-					res.Trace.Add("op %s", op.String())
+					w.tr("op %s", op.String())
 					synctest.Wait()
 					w.afterStep()
 				}
